@@ -72,7 +72,8 @@ def gen_body(rng, depth, cfg, docstr=False):
     n = rng.choice((1, 1, 2, 2, 3))
     parts = []
     if docstr and rng.random() < 0.4:
-        parts.append(rng.choice(['"""doc"""', "'doc'", '"""Doc line.\n\nMore.\n"""', "'''d'''", 'r"""raw\\doc"""']))
+        parts.append(rng.choice(['"""doc"""', "'doc'", '"""Doc line.\n\nMore.\n"""', "'''d'''", 'r"""raw\\doc"""',
+                                 '"""one \\\n    two"""', "'cont \\\n  line'", '"""a\n    b \\\n    c\n"""']))
     for _ in range(n):
         parts.append(gen_stmt(rng, depth, cfg))
     return '\n'.join(parts)
